@@ -72,4 +72,83 @@ def normBuild (h : String) : List String := splitDots (reverseFqdn (lowerAscii h
 def normQuery (h : String) : List String :=
   splitDots (reverseFqdn (String.ofList ((lowerAscii h).toList.takeWhile (· != ':'))))
 
+/-! ## GSLB: sub-cluster list of one cluster (bfe_balance/bal_gslb/bal_gslb.go)
+
+  `Init` (fresh load) and `Reload` (hot reload) both end by SORTING the sub-cluster list by name and then computing
+  `totalWeight`, `single`, `avail` ON THE SORTED LIST; `subClusterBalance` walks that list.  A gslb conf is a Go map
+  (sub-cluster name → weight): here a list of `Sub` in the arbitrary order in which Go ranged over it.
+  `sort.Sort` (pdqsort, not stable) is modelled by `mergeSort`; names in one list are pairwise distinct, so the sorted
+  permutation is unique (`sorted_perm_unique` in Proofs) and any correct sort gives the same list. -/
+
+structure Sub where
+  name : String
+  weight : Int
+  deriving Repr, DecidableEq
+
+/-- `SubClusterListSorter.Less`: by name -/
+def subLe (a b : Sub) : Bool := decide (a.name ≤ b.name)
+
+structure Gslb where
+  subs : List Sub          -- bal.subClusters
+  total : Int              -- bal.totalWeight
+  single : Bool            -- bal.single
+  avail : Nat              -- bal.avail (meaningful only when single)
+  deriving Repr, DecidableEq
+
+/-- sum of the positive weights -/
+def sumPos : List Sub → Int
+  | [] => 0
+  | s :: rest => (if s.weight > 0 then s.weight else 0) + sumPos rest
+
+def availNum (l : List Sub) : Nat := (l.filter fun s => s.weight > 0).length
+
+/-- index of the LAST sub-cluster with weight > 0 (0 if none), as the `for index, sub := range` loops compute it -/
+def lastAvailFrom : List Sub → Nat → Nat → Nat
+  | [], _, acc => acc
+  | s :: rest, i, acc => lastAvailFrom rest (i + 1) (if s.weight > 0 then i else acc)
+
+def lastAvail (l : List Sub) : Nat := lastAvailFrom l 0 0
+
+/-- `BalanceGslb.Init` on a conf in map-iteration order; `none` = "gslb total weight = 0" -/
+def gslbInit (conf : List Sub) : Option Gslb :=
+  let total := sumPos conf                       -- summed while ranging over the map, before the sort
+  if total == 0 then none
+  else
+    let sorted := conf.mergeSort subLe
+    some { subs := sorted, total := total, single := availNum sorted == 1, avail := lastAvail sorted }
+
+def confWeight (conf : List Sub) (n : String) : Option Int := (conf.find? fun c => c.name == n).map (·.weight)
+
+/-- `BalanceGslb.Reload`: existing sub-clusters that are still configured keep their position (with the new weight),
+    new ones are appended in map-iteration order, THEN the list is sorted and the weight pass runs on the sorted list.
+    A conf without available sub-cluster is rejected and nothing changes. -/
+def gslbReload (g : Gslb) (conf : List Sub) : Gslb :=
+  if sumPos conf ≤ 0 then g
+  else
+    let kept := g.subs.filterMap fun s => (confWeight conf s.name).map fun w => { s with weight := w }
+    let fresh := conf.filter fun c => !(g.subs.any fun s => s.name == c.name)
+    let sorted := (kept ++ fresh).mergeSort subLe
+    let n := availNum sorted
+    { subs := sorted, total := sumPos sorted, single := n == 1,
+      avail := if n == 1 then lastAvail sorted else g.avail }
+
+/-- the weighted walk of `subClusterBalance`: returns the last sub-cluster assigned to the loop variable -/
+def walk : List Sub → Int → Option Sub → Option Sub
+  | [], _, cur => cur
+  | s :: rest, w, _ =>
+    if s.weight ≤ 0 then walk rest w (some s)
+    else if w - s.weight < 0 then some s else walk rest (w - s.weight) (some s)
+
+/-- `subClusterBalance` with `GetHash(key, totalWeight) = h`; result = name of the selected sub-cluster -/
+def gslbSelect (g : Gslb) (h : Int) : Option String :=
+  if g.total == 0 then none
+  else if g.single then (g.subs[g.avail]?).map (·.name)
+  else (walk g.subs h none).map (·.name)
+
+/-- `avail` is dead when `single` is false -/
+def Gslb.norm (g : Gslb) : Gslb := { g with avail := if g.single then g.avail else 0 }
+
+/-- a whole reload history applied to a state -/
+def gslbHistory (g : Gslb) (hist : List (List Sub)) : Gslb := hist.foldl gslbReload g
+
 end BfeVerif.C14
